@@ -23,7 +23,7 @@ OPS = {"opt_idler", "delta_k", "k_eff", "dk_wavevector"}
 TOL = {"opt_idler": ("ulp", 4), "delta_k": ("rel", 1e-12, 1e-8), "k_eff": ("ulp", 2), "dk_wavevector": ("ulp", 4)}
 DEFAULT_TOL = ("exact",)
 RULE = ("family dk: 11 crystals × 5 PM types × crystal θ ∈ [0,π/2] (plus {0, π/2, any}) × φ × T 0–100 °C × in-window pump/signal "
-        "wavelengths with idler in-window (¼ degenerate) × |θs| ≤ 0.3 (incl. 0 and log-small; 1/5 negative, own signatures) × φs × "
+        "wavelengths with idler in-window (¼ degenerate; ¼ hand-built beams whose polarizations are independent of the PM label) × |θs| ≤ 0.3 (incl. 0 and log-small; 1/5 negative, own signatures) × φs × "
         "poling {off, ±Λ log-uniform 0.3 µm–1 mm}; ¼ of the cases also through the SPDC object (SPDC::optimum_idler, SPDC::delta_k); "
         "plus K-only streams (counter-propagation, backward θs, φs ∈ [−7,13]) and the error stream λs ≤ λp (equal, swapped, 1e-12 below); "
         "n/12 sessions on ONE SPDC object: 2–7 rounds of 1–3 mutations (pm_type among all five with beam polarizations, signal "
